@@ -502,6 +502,7 @@ def settlement_steps(cx):
             a1 = s1['acc'][acc]
             liquidated = bool(a0['pos']) and not a1['pos'] and a1['total_cash'] == 0
             exp_dtv = 0.0
+            reprice = 0.0
             fee = a1['mgmt_fees'] - a0['mgmt_fees']
             items = []
             ok_items = True
@@ -510,6 +511,11 @@ def settlement_steps(cx):
                 fut = ins['kind'] == 'Future'
                 for dname, p in ps.items():
                     p1 = a1['pos'].get(oid, {}).get(dname)
+                    if fut and p['qty'] and cx.settle_mode and p['last'] is not None:
+                        # what marking the entry at the settlement price adds to the account's value (the liquidation test comes after it)
+                        bar_ = cx.w.bar(oid, next((d for d in cx.days if W.dint(d) == today), None))
+                        if bar_:
+                            reprice += p['qty'] * (bar_['settlement'] - p['last']) * ins['mult'] * (1 if dname == 'LONG' else -1)
                     if p1 is None:
                         continue
                     try:
@@ -567,7 +573,8 @@ def settlement_steps(cx):
                 tv0, tv1 = s0['pub'][acc]['total_value'], s1['pub'][acc]['total_value']
                 if isinstance(tv0, float) and isinstance(tv1, float):
                     if liquidated:
-                        if tv0 > 1e-9 or not cx.forced:
+                        # the account is judged after its entries have been marked at the day's settlement price (settlement mode)
+                        if tv0 + reprice - fee > 1e-9 * max(1.0, abs(tv0)) or not cx.forced:
                             cx.hit('C02.forced_liquidation', dict(case='unwarranted'), dict(tv0=tv0, tv1=tv1, dt=s1['cal']))
                         elif abs(tv1) > 1e-9 and not a1['liab'] and not a1['pending']:
                             cx.hit('C02.forced_liquidation', dict(case='not zero'), dict(tv0=tv0, tv1=tv1))
